@@ -31,7 +31,7 @@ THEOREMS = [
     'Pyiga.Props.C08.schedule_independent',
     'Pyiga.Props.C08.sym_equiv', 'Pyiga.Props.C08.vec_skip_is_upper', 'Pyiga.Props.C08.block_transpose',
     'Pyiga.Props.C08.format_layout_index', 'Pyiga.Props.C08.format_layout_perm_bijective', 'Pyiga.Props.C08.format_layout_entry',
-    'Pyiga.Props.C08.subset_restriction', 'Pyiga.Props.C08.subset_bbox',
+    'Pyiga.Props.C08.subset_restriction',
     'Pyiga.Props.C08.update_equiv', 'Pyiga.Props.C08.update_needs_independence', 'Pyiga.Props.C08.update_params_slots',
 ]
 MODULES = ['Pyiga.Model.Index', 'Pyiga.Model.MLMatrix', 'Pyiga.Model.Layout', 'Pyiga.Model.Assembler', 'Pyiga.Proofs.Index',
@@ -43,6 +43,7 @@ CFG_FORMS = [('lapl_c', True), ('mass2', True), ('stiff3', True), ('conv1d', Fal
              ('vec22', True), ('vec21', False), ('divdiv2', True), ('matpar', False)]
 THREAD_COUNTS = [1, 2, 3, 5, 8, 16]
 UPD_FORM = 'f*u*v*dx + c*inner(grad(u),grad(v))*dx'
+SYM_TOL = 8 * 4.0 * 8200 * 2.0 ** -53     # 8 x the C01 forward-error factor for <= 8000 nodes, relative to max|entry|
 STALE_FORM = 'f*f*f*f*u*v*dx + f*f*f*f*inner(grad(u),grad(v))*dx + f*u*v*dx'
 
 
@@ -101,8 +102,12 @@ def worker_cfg(name, symform, seed, tier):
             for fmt in ('csr', 'csc', 'coo', 'bsr'):
                 got = guard(lambda: canon(assemble.assemble_entries(asm, symmetric=sym, format=fmt)))
                 out['reqs'].append(('drv_c08', 'asm %d %d %s %s' % (sym, dim, nzs, vs), got, 'asm sym=%s fmt=%s' % (sym, fmt)))
-                if not got.startswith('err') and got != canon(dense):
-                    out['violations'].append(('cfg-oracle:' + name, 'assemble_entries(symmetric=%s, format=%s) differs from the matrix of asm.entry(i,j)' % (sym, fmt), desc, True))
+                if not got.startswith('err'):
+                    A = assemble.assemble_entries(asm, symmetric=sym, format=fmt).toarray()
+                    # symmetric=True copies e(i,j) into (j,i): equal to e(j,i) only to rounding accuracy (both within the C01 bound)
+                    tol = 0.0 if not sym else SYM_TOL * float(np.max(np.abs(dense)))
+                    if np.max(np.abs(A - dense)) > tol:
+                        out['violations'].append(('cfg-oracle:' + name, 'assemble_entries(symmetric=%s, format=%s) differs from the matrix of asm.entry(i,j) by %g' % (sym, fmt, float(np.max(np.abs(A - dense)))), desc, True))
         # symmetric flag on a symmetric form vs entry symmetry itself (hypothesis of sym_equiv)
         if symform and square:
             asym = np.max(np.abs(dense - dense.T)) if dense.size else 0.0
@@ -158,9 +163,17 @@ def worker_cfg(name, symform, seed, tier):
                         req = 'vecbsr %d %d %d %d %s %s' % (sym, dim, nc1, nc0, nzs, bl)
                     else:
                         req = 'vecgen %d %d %d %d %s %s %s %s' % (sym, layout == 'blocked', nc0, nc1, bs, bidx, nzs, bl)
+                    if got.startswith('err') and not sym:
+                        key = 'bsr-nonsquare-blocks' if (layout == 'packed' and fmt == 'bsr' and nc0 != nc1) else 'cfg-raises:' + name
+                        out['violations'].append((key, 'assemble_entries(symmetric=False, format=%s, layout=%s) raised %s for a form with %dx%d component blocks' % (fmt, layout, got, nc1, nc0), desc, True))
+                        continue
                     out['reqs'].append(('drv_c08', req, got, 'vec sym=%s layout=%s fmt=%s' % (sym, layout, fmt)))
                     ref = packed if layout == 'packed' else blocked
-                    if not got.startswith('err') and got != canon(ref):
+                    if sym and not got.startswith('err'):
+                        Ad = assemble.assemble_entries(asm, symmetric=sym, format='csr', layout=layout).toarray()
+                        if np.max(np.abs(Ad - ref)) > SYM_TOL * float(np.max(np.abs(ref))):
+                            out['violations'].append(('cfg-oracle:' + name, 'assemble_entries(symmetric=True, layout=%s) differs from the matrix of the blocks by %g' % (layout, float(np.max(np.abs(Ad - ref)))), desc, True))
+                    elif not got.startswith('err') and got != canon(ref):
                         out['violations'].append(('cfg-oracle:' + name, 'assemble_entries(symmetric=%s, format=%s, layout=%s) differs from the matrix of the blocks asm.multi_blocks([(i,j)])'
                                                   % (sym, fmt, layout), desc, True))
         if nc0 != nc1:
@@ -342,7 +355,10 @@ def worker_threads(nthreads, seed, tier):
         for rep in range(2):
             for sym in ([False, True] if symform else [False]):
                 if is_vec:
+                    nsq = asm.num_components()[0] != asm.num_components()[1]
                     for layout, fmt in (('packed', 'bsr'), ('blocked', 'csr'), ('packed', 'csr')):
+                        if nsq and fmt == 'bsr':
+                            continue      # known finding bsr-nonsquare-blocks (reported by the cfg worker)
                         def f():
                             A = assemble.assemble_entries(asm, symmetric=sym, format=fmt, layout=layout)
                             A.sort_indices()
@@ -458,6 +474,11 @@ def run(ctx):
     # thread counts: after the cache is warm; all in parallel would distort nothing (bitwise criterion), but keep load moderate
     tjobs = [{'name': 'threads%d' % n, 'seed': int(ctx.seed * 1000003 + 555), 'tier': ctx.tier} for n in THREAD_COUNTS]
     tresults = c01.run_workers(ctx, tjobs, module='c08', nproc=3)
+    for k, res in enumerate(tresults):
+        # a cold module cache makes parallel workers race on the same generated module (that race is C20's subject): retry alone
+        if res is None or res.get('status') != 'ok':
+            tresults[k] = c01.run_workers(ctx, [tjobs[k]], module='c08', nproc=1)[0]
+            ctx.count('thread workers retried')
     reqs = {'drv_c08': [], 'drv_c01': []}
     nok = 0
     for job, res in zip(jobs + tjobs, results + tresults):
